@@ -119,6 +119,8 @@ example : (runLbls ⟨100, some 1000, false, false⟩ St.init
 /-- without escalation (background, killDelay = −1) such a process blocks forever: liveness needs `live`. -/
 example : ¬ (Scn.mk (-1) (some 1000) false false).live := by
   simp [Scn.live, killArmed, FWos.guardStrict]
+example : runLbls ⟨-1, some 1000, false, false⟩ St.init [.ctxFire 1000, .selCtx 1000, .signal 1001 .ok] =
+    some ⟨1001, true, .running true false, .waiting, .sendErr .ctxErr, 0, 0, some 1001, true, none⟩ := by decide
 example : Stuck ⟨-1, some 1000, false, false⟩
     ⟨1001, true, .running true false, .waiting, .sendErr .ctxErr, 0, 0, some 1001, true, none⟩ := by
   intro l; cases l <;> simp [step, stepCore]
